@@ -223,8 +223,8 @@ func SSetPut(st SSet, key string) {
 	dict.Add(st.Dict, key, true)
 }
 
-func collectTVarFTypeWithSet(visited SSet, ft FType) []string {
-	recurse := (func(_r0 FType) []string { return collectTVarFTypeWithSet(visited, _r0) })
+func collectTVarFTypeWithSet(visited SSet, recs dict.Dict[string, bool], ft FType) []string {
+	recurse := (func(_r0 FType) []string { return collectTVarFTypeWithSet(visited, recs, _r0) })
 	switch _v9 := (ft).(type) {
 	case FType_FTypeVar:
 		tv := _v9.Value
@@ -240,6 +240,12 @@ func collectTVarFTypeWithSet(visited SSet, ft FType) []string {
 		return recurse(fa.RecType)
 	case FType_FRecord:
 		rt := _v9.Value
+		key := rtToKey(rt)
+		on, _ := frt.Destr2(dict.TryFind(recs, key))
+		frt.IfOnly(on, (func() {
+			frt.PipeUnit(frt.Sprintf1("Recursive record type is not supported, use union: %s", rt.Name), PanicNow)
+		}))
+		dict.Add(recs, key, true)
 		ri := lookupRecInfo(rt)
 		fres := frt.Pipe(frt.Pipe(ri.Fields, (func(_r0 []NameTypePair) []FType {
 			return slice.Map(func(_v1 NameTypePair) FType {
@@ -247,6 +253,7 @@ func collectTVarFTypeWithSet(visited SSet, ft FType) []string {
 			}, _r0)
 		})), (func(_r0 []FType) []string { return slice.Collect(recurse, _r0) }))
 		tres := frt.Pipe(rt.Targs, (func(_r0 []FType) []string { return slice.Collect(recurse, _r0) }))
+		dict.Add(recs, key, false)
 		return slice.Append(fres, tres)
 	case FType_FUnion:
 		ut := _v9.Value
@@ -255,11 +262,14 @@ func collectTVarFTypeWithSet(visited SSet, ft FType) []string {
 			return slice.New[string]()
 		}), (func() []string {
 			SSetPut(visited, uname)
+			nrecs := dict.New[string, bool]()
 			return frt.Pipe(frt.Pipe(utCases(ut), (func(_r0 []NameTypePair) []FType {
 				return slice.Map(func(_v2 NameTypePair) FType {
 					return _v2.Ftype
 				}, _r0)
-			})), (func(_r0 []FType) []string { return slice.Collect(recurse, _r0) }))
+			})), (func(_r0 []FType) []string {
+				return slice.Collect((func(_r0 FType) []string { return collectTVarFTypeWithSet(visited, nrecs, _r0) }), _r0)
+			}))
 		}))
 	case FType_FFunc:
 		fnt := _v9.Value
@@ -271,7 +281,8 @@ func collectTVarFTypeWithSet(visited SSet, ft FType) []string {
 
 func collectTVarFType(ft FType) []string {
 	visited := NewSSet()
-	return collectTVarFTypeWithSet(visited, ft)
+	recs := dict.New[string, bool]()
+	return collectTVarFTypeWithSet(visited, recs, ft)
 }
 
 func collectTVarStmt(collE func(Expr) []string, stmt Stmt) []string {
